@@ -24,29 +24,30 @@ theorem nLive_wake (l : List Aw) : nLive (l.map wakeAw) = nLive l := by
     split <;> simp [ih]
 
 /-- polling a task while the derived is loading parks it: no reader resolves -/
-theorem nLive_poll_loading (v : Option Val) (l : List Aw) (i : Nat) :
-    nLive (modifyAt (pollAw true v) l i) = nLive l := by
+theorem nLive_poll_loading (b : Bool) (v : Option Val) (l : List Aw) (i : Nat) :
+    nLive (modifyAt (pollAw true b v) l i) = nLive l := by
   induction l generalizing i with
   | nil => rfl
   | cons a as ih =>
     cases i with
     | zero =>
-      cases hk : a.kind <;> cases hd : a.done <;> cases hb : a.aborted <;>
-        simp [modifyAt, nLive, liveReaders, List.filter_cons, pollAw, hk, hd, hb]
+      cases hk : a.kind <;> cases hd : a.done <;> cases hb : a.aborted <;> cases hh : a.holding <;>
+        cases hr : a.rel <;> simp [modifyAt, nLive, liveReaders, List.filter_cons, pollAw, hk, hd, hb, hh, hr]
     | succ i =>
       simp only [modifyAt, nLive, liveReaders, List.filter_cons] at ih ⊢
       split <;> simp [ih]
 
 /-- polling task `i`: if it is a reader that resolves, one handle is dropped -/
-theorem nLive_poll (ld : Bool) (v : Option Val) (l : List Aw) (i : Nat) :
-    nLive (modifyAt (pollAw ld v) l i) + handleDrop ld l[i]? = nLive l := by
+theorem nLive_poll (ld b : Bool) (v : Option Val) (l : List Aw) (i : Nat) :
+    nLive (modifyAt (pollAw ld b v) l i) + handleDrop ld l[i]? = nLive l := by
   induction l generalizing i with
   | nil => simp [modifyAt, nLive, liveReaders, handleDrop]
   | cons a as ih =>
     cases i with
     | zero =>
-      cases ld <;> cases hk : a.kind <;> cases hd : a.done <;> cases hb : a.aborted <;>
-        simp [modifyAt, nLive, liveReaders, pollAw, handleDrop, hk, hd, hb]
+      cases ld <;> cases b <;> cases hk : a.kind <;> cases hd : a.done <;> cases hb : a.aborted <;>
+        cases hh : a.holding <;> cases hr : a.rel <;>
+        simp [modifyAt, nLive, liveReaders, pollAw, handleDrop, AwKind.usesLock, hk, hd, hb, hh, hr]
     | succ i =>
       have := ih i
       simp only [modifyAt, nLive, liveReaders, List.filter_cons, List.getElem?_cons_succ] at this ⊢
@@ -68,7 +69,7 @@ theorem sawsGone_wake {l : List Aw} (h : sawsGone l) : sawsGone (l.map wakeAw) :
   unfold wakeAw; split <;> simpa using this
 
 theorem sawsGone_poll {l : List Aw} (h : sawsGone l) (ld : Bool) (v : Option Val) (i : Nat) :
-    sawsGone (modifyAt (pollAw ld v) l i) := by
+    sawsGone (modifyAt (pollAw ld b v) l i) := by
   intro a ha
   rcases mem_modifyAt ha with ha | ⟨b, hb, rfl⟩
   · exact h a ha
@@ -215,6 +216,14 @@ theorem SInv.attach {s : State} (h : SInv f s) : SInv f { s with aws := s.aws ++
   constructor <;> simp_all [nLive_append]
   exact fun hn => sawsGone_append (p7 hn) h1
 
+theorem SInv.attachK {s : State} (h : SInv f s) (k : AwKind) (h1 : k ≠ .reader) (h2 : k ≠ .saw) :
+    SInv f { s with aws := s.aws ++ [{ kind := k }] } := by
+  obtain ⟨p1, p2, p3, p4, p5, p6, p7⟩ := h
+  have h0 : nLive [({ kind := k } : Aw)] = 0 := by simp [nLive, liveReaders, h1]
+  have h3 : sawsGone [({ kind := k } : Aw)] := by simp [sawsGone, h2]
+  constructor <;> simp_all [nLive_append]
+  exact fun hn => sawsGone_append (p7 hn) h3
+
 theorem SInv.bread {s : State} (h : SInv f s) : SInv f (bread s) := by
   obtain ⟨p1, p2, p3, p4, p5, p6, p7⟩ := h
   have h1 : nLive [({ kind := .reader } : Aw)] = 1 := by simp [nLive, liveReaders]
@@ -262,10 +271,46 @@ theorem SInv.bdropFixed {s : State} (h : SInv f s) : SInv true (bdropFixed s) :=
   unfold Async.bdropFixed
   constructor <;> simp_all [nLive_drop, sawsGone_drop]
 
+theorem SInv.wakeWriter {s : State} (h : SInv f s) : SInv f (wakeWriter s) := by
+  unfold Async.wakeWriter
+  split
+  · exact h.of_same ⟨rfl, rfl, rfl, rfl, rfl, rfl, rfl, rfl, rfl, rfl⟩
+  · exact h
+
+/-- the task starts to wait for the write lock: the ids it held for this run are released -/
+theorem SInv.block {s : State} (h : SInv f s) (hpc : s.pc = .fetching) : SInv f (blockOnLock s) := by
+  obtain ⟨p1, p2, p3, p4, p5, p6, p7⟩ := h
+  unfold blockOnLock
+  constructor <;> simp_all <;> omega
+
+theorem nLive_release (l : List Aw) : nLive (l.map releaseAw) = nLive l := by
+  induction l with
+  | nil => rfl
+  | cons a as ih =>
+    have ha : (decide ((releaseAw a).kind = .reader) && !(releaseAw a).done) = (decide (a.kind = .reader) && !a.done) := by
+      unfold releaseAw; split <;> simp_all
+    simp only [nLive, liveReaders, List.map_cons, List.filter_cons] at ih ⊢
+    rw [ha]
+    split <;> simp [ih]
+
+theorem sawsGone_release {l : List Aw} (h : sawsGone l) : sawsGone (l.map releaseAw) := by
+  intro a ha
+  rcases List.mem_map.mp ha with ⟨b, hb, rfl⟩
+  have := h b hb
+  unfold releaseAw; split <;> simp_all
+
+theorem SInv.release {s : State} (h : SInv f s) : SInv f (release s) := by
+  obtain ⟨p1, p2, p3, p4, p5, p6, p7⟩ := h
+  unfold Async.release
+  apply SInv.wakeWriter
+  constructor <;> simp_all [nLive_release]
+  exact fun hn => sawsGone_release (p7 hn)
+
 theorem SInv.pollA {s : State} (h : SInv f s) (i : Nat) : SInv f (pollA s i) := by
   obtain ⟨p1, p2, p3, p4, p5, p6, p7⟩ := h
-  have hp := nLive_poll s.loading s.value s.aws i
+  have hp := nLive_poll s.loading s.lockReg s.value s.aws i
   unfold Async.pollA
+  apply SInv.wakeWriter
   constructor <;> simp only []
   · omega
   · exact p2
@@ -311,7 +356,11 @@ theorem SInv.dIter {s : State} (h : SInv f s) (hpc : s.pc = .waiting) :
       have hf := h.toFetch hpc
       by_cases hr : (fetchState s).tickFired = true ∧ (fetchState s).curStatus = .ready
       · rw [if_pos hr]
-        exact ⟨hf.applyResult.1, fun _ => hf.applyResult.2⟩
+        by_cases hg : (fetchState s).guards = 0
+        · rw [if_pos hg]
+          exact ⟨hf.applyResult.1, fun _ => hf.applyResult.2⟩
+        · rw [if_neg hg]
+          exact ⟨hf.block (fetchState_pc s), fun hh => by simp at hh⟩
       · rw [if_neg hr]
         exact ⟨hf.of_same ⟨rfl, rfl, rfl, rfl, rfl, rfl, rfl, rfl, rfl, rfl⟩, fun hh => by simp at hh⟩
     · rw [if_neg hn]
@@ -351,9 +400,12 @@ theorem SInv.pollD {s : State} (h : SInv f s) : SInv f (pollD s) := by
     apply SInv.dLoop
     · exact h.of_same ⟨rfl, rfl, rfl, rfl, rfl, rfl, rfl, rfl, rfl, rfl⟩
     · exact hpc
-  · split
-    · have h0 : SInv f { s with dWoken := false } := h.of_same ⟨rfl, rfl, rfl, rfl, rfl, rfl, rfl, rfl, rfl, rfl⟩
-      exact SInv.dLoop 3 h0.applyResult.1 h0.applyResult.2
+  · rename_i hpc
+    have h0 : SInv f { s with dWoken := false } := h.of_same ⟨rfl, rfl, rfl, rfl, rfl, rfl, rfl, rfl, rfl, rfl⟩
+    split
+    · split
+      · exact SInv.dLoop 3 h0.applyResult.1 h0.applyResult.2
+      · exact h0.block hpc
     · exact h.of_same ⟨rfl, rfl, rfl, rfl, rfl, rfl, rfl, rfl, rfl, rfl⟩
 
 /-! ## the effect's task -/
@@ -415,6 +467,10 @@ theorem SInv.stepNB {s : State} (h : SInv f s) (e : Event) (hb : e ≠ .bdrop) :
   | bread => exact h.bread
   | attachS => exact h.attachS
   | bdrop => exact absurd rfl hb
+  | attachR => exact h.attachK .awaiterR (by decide) (by decide)
+  | attachH => exact h.attachK .holder (by decide) (by decide)
+  | hold => exact h.of_same ⟨rfl, rfl, rfl, rfl, rfl, rfl, rfl, rfl, rfl, rfl⟩
+  | release => exact h.release
 
 /-- the code as it is -/
 theorem SInv.step {s : State} (h : SInv false s) (e : Event) : SInv false (step s e) := by
